@@ -27,7 +27,10 @@ from verif.core.runner import HarnessError
 PROPERTY = 'C08'
 LEVEL = 'model_checking'
 EXHAUSTIVE = True
-PLATFORMS = ('default', 'P')
+def plats(spec):
+    return ('default', spec['P'])
+
+
 DEPTH = {'quick': 3, 'thorough': 5}
 # thorough additionally explores the three documents with the *other* active platform to this depth
 DEPTH_SWAPPED = {'quick': 0, 'thorough': 3}
@@ -105,13 +108,16 @@ MC_EXPLANATION = (
 
 # ----------------------------------------------------------------------------------------------- initial documents
 def _specs():
+    # the second platform: legal names with characters outside [A-Za-z0-9_] (hyphenated names such as lsf-gpu are
+    # common) in two documents, a plain word in the third
+    P0, P1 = 'P-1', 'p2-x_y'
     d0 = {
-        'platforms': ['default', 'P'],
+        'platforms': ['default', P0],
         'blueprint': {'default': {'stages': {0: {'resourceManager': {'lsf': {'queue': 'q0'}}}}},
-                      'P': {'stages': {0: {'resourceManager': {'lsf': {'queue': 'qp', 'reservation': 'rp'}}}}}},
+                      P0: {'stages': {0: {'resourceManager': {'lsf': {'queue': 'qp', 'reservation': 'rp'}}}}}},
         'variables': {'default': {'global': {'g': 'g0', 'v': 'gv', 'n': 2, 'pn': 5},
                                   'stages': {0: {'s': 's0', 'm': 0, 'pm': 6}, 1: {'s': 's1', 'm': 0}}},
-                      'P': {'global': {'g': 'pg', 'pn': 1}, 'stages': {0: {'s': 'ps0', 'pm': 3}}}},
+                      P0: {'global': {'g': 'pg', 'pn': 1}, 'stages': {0: {'s': 'ps0', 'pm': 3}}}},
         'components': [
             {'name': 'A', 'stage': 0,
              'command': {'executable': 'echo', 'arguments': '%(g)s %(s)s %(v)s %(n)s %(pn)s %(m)s %(pm)s %(k)s'},
@@ -121,19 +127,19 @@ def _specs():
              'variables': {'v': 'c1v', 'k': 1}, 'resourceRequest': {'numberThreads': 3}},
         ]}
     d1 = {
-        'platforms': ['default', 'P'],
+        'platforms': ['default', P1],
         'blueprint': {'default': {'global': {'command': {'environment': 'none'}},
                                   'stages': {0: {'resourceManager': {'config': {'walltime': 30.0}}}}},
-                      'P': {'global': {'resourceRequest': {'numberThreads': 4}},
+                      P1: {'global': {'resourceRequest': {'numberThreads': 4}},
                             'stages': {0: {'command': {'expandArguments': 'none'}}}}},
         'variables': {'default': {'global': {'g': 'g0', 'n': 2, 'pn': 5}, 'stages': {0: {'s': 's0', 'm': 0, 'pm': 6}}},
-                      'P': {'global': {'g': 'pg', 'v': 'pv', 'pn': 1}, 'stages': {0: {'s': 'ps0', 'pm': 3}}}},
+                      P1: {'global': {'g': 'pg', 'v': 'pv', 'pn': 1}, 'stages': {0: {'s': 'ps0', 'pm': 3}}}},
         'components': [
             {'name': 'A', 'stage': 0,
              'command': {'executable': 'echo', 'arguments': '%(g)s %(s)s %(v)s %(n)s %(pn)s %(m)s %(pm)s %(k)s'},
              'variables': {'v': 'c0v', 'k': 1}, 'resourceRequest': {'numberThreads': 2},
              'resourceManager': {'config': {'backend': 'local'}, 'lsf': {'queue': 'qa'}},
-             'override': {'P': {'command': {'arguments': 'over %(v)s %(g)s %(n)s %(pn)s %(m)s %(pm)s %(k)s'},
+             'override': {P1: {'command': {'arguments': 'over %(v)s %(g)s %(n)s %(pn)s %(m)s %(pm)s %(k)s'},
                                 'variables': {'v': 'ov'}}}},
             # an interpreter component that leaves expandArguments to the default (fixed up after resolution)
             {'name': 'AB', 'stage': 0,
@@ -148,13 +154,15 @@ def _specs():
              'variables': {'v': 'xv', 'k': 1}},
         ]}
     specs = [
-        {'name': 'layered', 'doc': d0, 'active': 'default', 'primitive': True,
+        {'name': 'layered', 'doc': d0, 'active': 'default', 'P': P0, 'primitive': True,
          'comps': [[0, 'A'], [1, 'A']],
-         'add': {'name': 'AA', 'stage': 0, 'command': {'executable': 'echo', 'arguments': 'add %(g)s %(s)s %(n)s %(m)s'}}},
-        {'name': 'override', 'doc': d1, 'active': 'P', 'primitive': True,
+         'add': {'name': 'AA', 'stage': 0,
+                 'command': {'executable': 'echo', 'arguments': 'add %(g)s %(s)s %(n)s %(m)s %(replica)s'}}},
+        {'name': 'override', 'doc': d1, 'active': P1, 'P': P1, 'primitive': True,
          'comps': [[0, 'A'], [0, 'AB']],
-         'add': {'name': 'A.B', 'stage': 0, 'command': {'executable': 'echo', 'arguments': 'add %(g)s %(s)s %(n)s %(m)s'}}},
-        {'name': 'flattened', 'doc': d2, 'active': 'default', 'primitive': False, 'gvar': 'g',
+         'add': {'name': 'A.B', 'stage': 0,
+                 'command': {'executable': 'echo', 'arguments': 'add %(g)s %(s)s %(n)s %(m)s %(replica)s'}}},
+        {'name': 'flattened', 'doc': d2, 'active': 'default', 'P': 'P', 'primitive': False, 'gvar': 'g',
          'comps': [[0, 'x'], [0, 'x.y']],
          'add': {'name': 'xy', 'stage': 1, 'command': {'executable': 'echo', 'arguments': 'add %(g)s %(n)s'}}},
     ]
@@ -162,7 +170,7 @@ def _specs():
     for s in specs:
         out[s['name']] = s
         other = dict(s, name=s['name'] + '@' + ('P' if s['active'] == 'default' else 'default'),
-                     active='P' if s['active'] == 'default' else 'default', swapped=True)
+                     active=s['P'] if s['active'] == 'default' else 'default', swapped=True)
         out[other['name']] = other
     return out
 
@@ -195,9 +203,9 @@ def ops_for(spec, typed=False):
     stages = sorted({c[0] for c in spec['comps']})
     for st in stages:
         ops.append(['setstage', st])
-    ops.append(['setpglobal', 'P'])
+    ops.append(['setpglobal', spec['P']])
     ops.append(['setpglobal', 'default'])
-    ops.append(['setpstage', stages[0], 'P'])
+    ops.append(['setpstage', stages[0], spec['P']])
     ops.append(['setpstage', stages[0], 'default'])
     ops.append(['add', 2])
     ops.append(['add', 1])
@@ -206,16 +214,16 @@ def ops_for(spec, typed=False):
     for i in (0, 1):
         ops.append(['delete', i])
     for i in (0, 1):
-        for p in PLATFORMS:
+        for p in plats(spec):
             ops.append(['query', i, p])
     if typed:
         for i in (0, 1):
             ops.append(['setvar', i, 'eq'])
         ops.append(['setglobal', 'eq'])
         ops.append(['setstage', stages[0], 'eq'])
-        for p in PLATFORMS:
+        for p in plats(spec):
             ops.append(['setpglobal', p, 'eq'])
-        for p in PLATFORMS:
+        for p in plats(spec):
             ops.append(['setpstage', stages[0], p, 'eq'])
     return ops
 
@@ -236,8 +244,9 @@ def _component_desc(spec, i, purpose='update'):
         return copy.deepcopy(spec['add'])
     st, name = spec['comps'][i]
     if purpose == 'add':
+        # numberThreads cannot be converted to a number: strict queries raise, ignore_convert_errors=True ones do not
         return {'name': name, 'stage': st, 'command': {'executable': 'echo', 'arguments': 'readd %(n)s %(m)s'},
-                'variables': {'v': 'rv', 'k': 1}}
+                'variables': {'v': 'rv', 'k': 1}, 'resourceRequest': {'numberThreads': 'many'}}
     if i == 0:
         return {'name': name, 'stage': st,
                 'command': {'interpreter': 'bash', 'executable': 'echo', 'arguments': 'upd0 %(g)s %(v)s %(n)s %(m)s'},
@@ -444,9 +453,40 @@ FLAVOURS = (('raw', {'raw': True, 'include_default': True}),       # what getOpt
             ('rawnofill', {'raw': True, 'include_default': True, 'inject_missing_fields': False}))
 
 
+# query MODES that are more lenient than the regular one; interleaved with regular queries on one object they must not
+# influence each other: (name, keyword arguments)
+MODES = (('primitive', {'include_default': True, 'is_primitive': True}),
+         ('lenient', {'include_default': True, 'ignore_convert_errors': True}))
+_EXPECT_MODES = {}
+
+
+def expected_modes(spec, raw, dkey):
+    mk = (spec['active'], dkey)
+    hit = _EXPECT_MODES.get(mk)
+    if hit is not None:
+        return hit
+    from experiment.model.frontends.flowir import FlowIRConcrete
+    out = {}
+    for cid, p in pairs_of(spec):
+        for mname, kw in MODES:
+            try:
+                scratch = FlowIRConcrete(raw, spec['active'], {})
+            except Exception as e:
+                out[(cid, p, mname)] = ('unbuildable', type(e).__name__)
+                continue
+            try:
+                out[(cid, p, mname)] = ('ok', scratch.get_component_configuration(cid, platform=p, **kw))
+            except Exception as e:
+                out[(cid, p, mname)] = ('raised', type(e).__name__)
+    if len(_EXPECT_MODES) >= _EXPECT_MAX:
+        _EXPECT_MODES.clear()
+    _EXPECT_MODES[mk] = out
+    return out
+
+
 def pairs_of(spec):
     cids = [tuple(c) for c in spec['comps']] + [(spec['add']['stage'], spec['add']['name'])]
-    return [(cid, p) for cid in cids for p in PLATFORMS]
+    return [(cid, p) for cid in cids for p in plats(spec)]
 
 
 def expected_for(spec, raw, dkey):
@@ -557,7 +597,11 @@ def judge(col, sink, spec, history, raw, got, exp, pair, phase, was_cached):
     where = 'get_component_configuration(%s, %s, platform=%s)' % (
         _ref(cid), {'resolved': 'include_default=True', 'raw': 'raw=True, include_default=True',
                     'nodefaults': 'include_default=False',
-                    'rawnofill': 'raw=True, include_default=True, inject_missing_fields=False'}[flavour], p)
+                    'rawnofill': 'raw=True, include_default=True, inject_missing_fields=False',
+                    'primitive': 'include_default=True, is_primitive=True',
+                    'lenient': 'include_default=True, ignore_convert_errors=True',
+                    'resolved-after-modes': 'include_default=True [asked after validate() and the is_primitive=True / '
+                                            'ignore_convert_errors=True queries of the same component]'}[flavour], p)
     cached = 'cached' if was_cached else 'uncached'
     live_r = 'ok' if got[0] == 'ok' else got[1]
     scratch_r = 'ok' if exp[0] == 'ok' else exp[1]
@@ -662,7 +706,7 @@ def oracle(col, sink, spec, conf, history, raw, dkey):
                 scramble(got[1])     # a leak shows in the next query or in the description check below
     # the other read-only view of the configuration: the instance description for each platform (its value is not
     # judged here, only that producing it leaves the configuration alone)
-    for p in (PLATFORMS if full else ()):
+    for p in (plats(spec) if full else ()):
         try:
             conc.instance(platform=p, ignore_errors=True)
             col.outcome('instance:produced')
@@ -683,6 +727,38 @@ def oracle(col, sink, spec, conf, history, raw, dkey):
             if exp[k] != exp2[k] and exp[k][0] != 'unbuildable':
                 judge(col, sink, spec, history, raw, exp2[k], exp[k], k, 'description-after-queries', False)
                 break
+
+
+def mode_pass(col, sink, spec, history):
+    """Second replay of the history: the lenient modes are asked BEFORE the regular query of each (component, platform),
+    after validate() (which queries every component in primitive mode). Each answer must be what a from-scratch object
+    answers to the same call."""
+    conf = fresh(spec)
+    for op in history:
+        apply_op(spec, conf, op)
+    conc = conf.get_flowir_concrete(return_copy=False)
+    _, dkey, raw = state_key(conc)
+    exp = expected_for(spec, raw, dkey)
+    expm = expected_modes(spec, raw, dkey)
+    labels = set(cache_labels(conc))
+    try:
+        conc.validate()
+        col.outcome('validate:returned')
+    except HarnessError:
+        raise
+    except Exception as e:
+        col.outcome('validate:raised-%s' % type(e).__name__)
+    for cid, p in pairs_of(spec):
+        was_cached = _label(p, cid) in labels
+        for mname, kw in MODES:
+            col.count('oracle_comparisons')
+            got = _ask(conc, cid, p, kw)
+            if judge(col, sink, spec, history, raw, got, expm[(cid, p, mname)], (cid, p, mname), 'first', was_cached):
+                col.outcome('mode:%s:%s' % (mname, 'equal' if got[0] == 'ok' else 'both-raise-' + got[1]))
+        col.count('oracle_comparisons')
+        got = _ask(conc, cid, p)
+        if judge(col, sink, spec, history, raw, got, exp[(cid, p)], (cid, p, 'resolved-after-modes'), 'first', was_cached):
+            col.outcome('mode:regular-after-modes:%s' % ('equal' if got[0] == 'ok' else 'both-raise-' + got[1]))
 
 
 def run_history(col, sink, spec, history, judged=True):
@@ -728,6 +804,8 @@ def run_history(col, sink, spec, history, judged=True):
                                      ('cache-cleared' if not post_labels else 'cache-partly-invalidated'))
         col.outcome(lab)
     oracle(col, sink, spec, conf, history, raw, dkey)
+    if len(history) <= FULL_ORACLE_DEPTH:
+        mode_pass(col, sink, spec, history)
     col.evaluated()
     col.traces += 1
     col.state(key)
